@@ -25,6 +25,11 @@ type blockLog struct {
 	// bit forced (D0 == D1 with the permute bit already 1: the two labels of a wire then differ
 	// by a value whose halves are equal)
 	mirror bool
+	// skipKey: the first 32-byte read is the session key (circuit.Garbler, Program.Stream), not labels
+	skipKey bool
+	keySeen bool
+	cur     [16]byte
+	fill    int
 }
 
 // c01RandPatterns: AND masks for directed label randomness.
@@ -41,19 +46,37 @@ var c01RandPatternNames = []string{"all-zero", "low-words-zero", "high-words-zer
 
 func (b *blockLog) Read(p []byte) (int, error) {
 	n, err := b.r.Read(p)
-	if len(p) == 16 && b.and != nil {
-		for i := range p {
-			p[i] &= b.and[i]
+	if b.skipKey && !b.keySeen && len(p) == 32 {
+		// the session key of circuit.Garbler / Program.Stream: not label randomness
+		b.keySeen = true
+		return n, err
+	}
+	// The label randomness is the BYTE STREAM: it is cut into 16-byte blocks whatever the
+	// sizes of the individual reads are (a garbler that reads its labels in chunks consumes
+	// the same stream and must produce the same garbling).
+	for i := 0; i < n; i++ {
+		idx := b.fill
+		v := p[i]
+		if b.and != nil {
+			v &= b.and[idx]
 		}
-	}
-	if len(p) == 16 && b.mirror {
-		p[0] |= 0x80
-		copy(p[8:], p[:8])
-	}
-	if len(p) == 16 {
-		var l ot.Label
-		l.SetBytes(p)
-		b.blocks = append(b.blocks, l)
+		if b.mirror {
+			if idx == 0 {
+				v |= 0x80
+			}
+			if idx >= 8 {
+				v = b.cur[idx-8]
+			}
+		}
+		b.cur[idx] = v
+		p[i] = v
+		b.fill++
+		if b.fill == 16 {
+			var l ot.Label
+			l.SetBytes(b.cur[:])
+			b.blocks = append(b.blocks, l)
+			b.fill = 0
+		}
 	}
 	return n, err
 }
@@ -146,6 +169,13 @@ func runC01(c *Ctx) error {
 		if i%10 == 9 {
 			opts.MaxGates = 200
 			opts.MinGates = 100
+		}
+		if i%45 == 22 {
+			// wide interfaces: more input wires than any label chunk / batch a garbler may
+			// use (1024-label chunks, 16 KiB buffers): every input wire, whatever its index,
+			// needs its own fresh L0 and L1 = L0 ^ R
+			opts = GenOpts{MinIn: 1026, MaxIn: 2300, MinGates: 30, MaxGates: 90, MaxOut: 8, Overwrite: true}
+			c.Hist("circuit:more-than-1024-input-wires")
 		}
 		circ := GenCircuit(r, opts)
 		overwrites := false
